@@ -137,13 +137,29 @@ def strip_keys(x, drop):
 
 # ---------------------------------------------------------------- pickles / genast
 
-def pickles_stream(docs, project, stream="pickles") -> Result:
+def pickles_stream(docs, project, stream="pickles", shared=True) -> Result:
+    """parse+compile each document; with `shared`, ONE Compiler and ONE TokenMatcher instance serve
+    the whole sequence (each result must still equal the per-document model: no state may leak)"""
     res = Result()
     docs = [d for d in docs if not impl.is_existing_path(d)]
     outs = driver.batch([driver.request("pickles", "en", "uri", s) for s in docs])
+    comp = impl.Compiler() if shared else None
+    mat = impl.TokenMatcher("en") if shared else None
+    prev = []
     for s, m in zip(docs, outs):
-        i = impl.pickles(s, "uri")
+        i = impl.pickles(s, "uri", compiler=comp, matcher=mat)
         case = {"source": s}
+        if shared:
+            pi0, pm0 = project(i), project(m)
+            if pi0 != pm0 and ("pickles" in i or "pickles" in m):
+                j = impl.pickles(s, "uri")
+                if project(j) == pm0:
+                    res.fail("history", {"source": s, "earlier_documents_through_same_compiler_and_matcher": prev[-3:]},
+                             pi0, pm0, "result differs when the Compiler/TokenMatcher instance has been used before: "
+                             + str(first_diff(pi0, pm0)))
+                    prev.append(s)
+                    continue
+            prev.append(s)
         res.note(case, "pickles" in i and len(i["pickles"]) > 0)
         res.stats["pickles"] += len(i.get("pickles", []))
         if "pickles" not in i and "pickles" not in m:
@@ -158,8 +174,9 @@ def genast_stream(rng: random.Random, n: int, project, stream="genast") -> Resul
     res = Result()
     descs = [[rng.randrange(256) for _ in range(rng.randrange(5, 220))] for _ in range(n)]
     outs = driver.batch([driver.request("genast", "u", d) for d in descs])
+    comp = impl.Compiler()          # one Compiler for the whole sequence: no state may leak between documents
     for d, m in zip(descs, outs):
-        i = impl.compile_ast(m["doc"], "u", m["start"])
+        i = impl.compile_ast(m["doc"], "u", m["start"], compiler=comp)
         case = {"descriptor": d, "doc": m["doc"], "start": m["start"]}
         res.note({"descriptor": d}, len(i.get("pickles", [])) > 0)
         res.stats["pickles"] += len(i.get("pickles", []))
